@@ -45,10 +45,10 @@ import (
 )
 
 func init() {
+	imp := "From Eino Require Import Base.Util Model.ConcatTable Model.Concat Model.ConcatMsg Model.ConcatStream Model.ConcatGenLib Model.ConcatCodeRef.\n\n"
 	register("concatcode", c14ExtractConcatCode)
 	registerFallback("concatcode", "ConcatCode.v", "(* Gen/ConcatCode.v — translator tie UNAVAILABLE: tools/go2v (extractor \"concatcode\") did not recognise the\n"+
-		"   shape of internal/concat.go / schema/message.go (concatToolCalls); the reference translation is re-exported. *)\n"+
-		"From Eino Require Import Base.Util Model.ConcatTable Model.Concat Model.ConcatMsg Model.ConcatStream Model.ConcatGenLib Model.ConcatCodeRef.\n\n"+
+		"   shape of internal/concat.go; the reference translation is re-exported. *)\n"+imp+
 		"Definition tie_available : bool := false.\n\n"+
 		"Section Gen.\nContext {U : UserFn}.\n"+
 		"Definition gen_toSliceValue := Model.ConcatCodeRef.gen_toSliceValue.\n"+
@@ -56,11 +56,20 @@ func init() {
 		"Definition gen_concatMaps := Model.ConcatCodeRef.gen_concatMaps.\n"+
 		"Definition gen_concatInterfaces := Model.ConcatCodeRef.gen_concatInterfaces.\n"+
 		"End Gen.\n"+
-		"Definition gen_tc_less := Model.ConcatCodeRef.gen_tc_less.\n"+
-		"Definition gen_tc_sort_stable : bool := Model.ConcatCodeRef.gen_tc_sort_stable.\n"+
-		"Definition gen_concat_items_shape := Model.ConcatCodeRef.gen_concat_items_shape.\n"+
+		"Definition gen_concat_items_shape := Model.ConcatCodeRef.gen_concat_items_shape.\n")
+	register("concatstream", c14ExtractConcatStream)
+	registerFallback("concatstream", "ConcatStreamCode.v", "(* Gen/ConcatStreamCode.v — translator tie UNAVAILABLE: tools/go2v (extractor \"concatstream\") did not recognise the\n"+
+		"   shape of compose/stream_concat.go (concatStreamReader) / schema/message.go (ConcatMessageStream); the reference translation is re-exported. *)\n"+imp+
+		"Definition tie_available : bool := false.\n\n"+
 		"Definition gen_concatStreamReader := Model.ConcatCodeRef.gen_concatStreamReader.\n"+
 		"Definition gen_ConcatMessageStream := Model.ConcatCodeRef.gen_ConcatMessageStream.\n"+
+		"Definition gen_concatMessageArray := Model.ConcatCodeRef.gen_concatMessageArray.\n")
+	register("concattoolcalls", c14ExtractConcatToolCalls)
+	registerFallback("concattoolcalls", "ConcatToolCallCode.v", "(* Gen/ConcatToolCallCode.v — translator tie UNAVAILABLE: tools/go2v (extractor \"concattoolcalls\") did not recognise the\n"+
+		"   shape of schema/message.go (concatToolCalls); the reference translation is re-exported. *)\n"+imp+
+		"Definition tie_available : bool := false.\n\n"+
+		"Definition gen_tc_less := Model.ConcatCodeRef.gen_tc_less.\n"+
+		"Definition gen_tc_sort_stable : bool := Model.ConcatCodeRef.gen_tc_sort_stable.\n"+
 		"Definition gen_concatToolCalls := Model.ConcatCodeRef.gen_concatToolCalls.\n")
 }
 
@@ -85,6 +94,7 @@ const (
 	c14kStream // *schema.StreamReader[T]: what it still has to deliver     list (sitem X)
 	c14kXs     // []T                                                       list X
 	c14kX      // T                                                         X
+	c14kXss    // [][]T                                                     list (list X)
 	c14kErr    // the error of a Recv: nil | io.EOF | another error         rerr
 	c14kTCs    // []ToolCall                                                list toolcall
 	c14kTC     // ToolCall                                                  toolcall
@@ -96,7 +106,7 @@ const (
 )
 
 var c14KindName = map[c14Kind]string{c14kSlice: "slice", c14kAnys: "anys", c14kElem: "elem", c14kOpt: "opt", c14kOptAnys: "optanys", c14kMapAnys: "mapanys",
-	c14kKeys: "keys", c14kKey: "key", c14kTy: "ty", c14kOptTy: "optty", c14kKind: "kind", c14kNat: "nat", c14kBool: "bool", c14kFunc: "func", c14kStream: "stream", c14kXs: "xs", c14kX: "x", c14kErr: "err",
+	c14kKeys: "keys", c14kKey: "key", c14kTy: "ty", c14kOptTy: "optty", c14kKind: "kind", c14kNat: "nat", c14kBool: "bool", c14kFunc: "func", c14kStream: "stream", c14kXs: "xs", c14kX: "x", c14kXss: "xss", c14kErr: "err",
 	c14kTCs: "toolcalls", c14kTC: "toolcall", c14kOptZ: "optint", c14kZ: "index", c14kZMap: "indexmap", c14kNats: "positions", c14kStr: "string"}
 
 type c14Fn struct {
@@ -331,6 +341,16 @@ func (t *c14Tr) expr(e ast.Expr) ([]c14Pre, string, c14Kind, error) {
 			}
 			return append(pre, pi...), "(zm_get " + ic + " " + xc + ")", c14kNats, nil
 		}
+		if xk == c14kXss {
+			pi, ic, ik, err := t.expr(x.Index)
+			if err != nil {
+				return nil, "", c14kNone, err
+			}
+			if ik != c14kNat {
+				return bad()
+			}
+			return mon(append(pre, pi...), "(g_nth "+xc+" "+ic+")", "x", c14kXs)
+		}
 		if xk == c14kXs {
 			pi, ic, ik, err := t.expr(x.Index)
 			if err != nil {
@@ -427,6 +447,8 @@ func (t *c14Tr) expr(e ast.Expr) ([]c14Pre, string, c14Kind, error) {
 					return nil, "", c14kNone, err
 				}
 				switch k {
+				case c14kX:
+					return pre, neg("(is_nil_x " + c + ")"), c14kBool, nil
 				case c14kOptZ:
 					if x.Op == token.NEQ {
 						return pre, "(is_some " + c + ")", c14kBool, nil
@@ -505,12 +527,24 @@ func (t *c14Tr) expr(e ast.Expr) ([]c14Pre, string, c14Kind, error) {
 				if err != nil {
 					return nil, "", c14kNone, err
 				}
-				if k != c14kAnys && k != c14kXs && k != c14kTCs && k != c14kNats {
+				if k != c14kAnys && k != c14kXs && k != c14kXss && k != c14kTCs && k != c14kNats {
 					return bad()
 				}
 				return pre, "(List.length " + c + ")", c14kNat, nil
 			case id.Name == "make" && len(x.Args) == 3 && es(x.Args[0]) == "[]any" && es(x.Args[1]) == "0":
 				return nil, "(@nil cval)", c14kAnys, nil
+			case id.Name == "make" && len(x.Args) == 2 && t.xType != "" && (es(x.Args[0]) == "[]"+t.xType || es(x.Args[0]) == "[][]"+t.xType):
+				pn, nc, nk, err := t.expr(x.Args[1])
+				if err != nil {
+					return nil, "", c14kNone, err
+				}
+				if nk != c14kNat {
+					return bad()
+				}
+				if es(x.Args[0]) == "[]"+t.xType {
+					return pn, "(repeat zero " + nc + ")", c14kXs, nil
+				}
+				return pn, "(repeat (@nil X) " + nc + ")", c14kXss, nil
 			case id.Name == "make" && len(x.Args) == 1 && es(x.Args[0]) == "map[int][]int":
 				return nil, "(@nil (Z * list nat))", c14kZMap, nil
 			case id.Name == "append" && len(x.Args) == 2:
@@ -1087,6 +1121,34 @@ func (t *c14Tr) block(l []ast.Stmt, k string, ind string) (string, error) {
 		if len(x.Lhs) != 1 || len(x.Rhs) != 1 {
 			break
 		}
+		// xs[i] = e  (a slice of chunks / of slices of chunks)
+		if ix, ok := x.Lhs[0].(*ast.IndexExpr); ok && x.Tok == token.ASSIGN {
+			if sid, ok := ix.X.(*ast.Ident); ok && (t.vars[sid.Name] == c14kXs || t.vars[sid.Name] == c14kXss) {
+				pi, ic, ik, err := t.expr(ix.Index)
+				if err != nil {
+					return "", err
+				}
+				var pv []c14Pre
+				var vc string
+				var vk c14Kind
+				if c14IsIdent(x.Rhs[0], "nil") && t.vars[sid.Name] == c14kXs {
+					vc, vk = "zero", c14kX
+				} else {
+					pv, vc, vk, err = t.expr(x.Rhs[0])
+					if err != nil {
+						return "", err
+					}
+				}
+				want := c14kX
+				if t.vars[sid.Name] == c14kXss {
+					want = c14kXs
+				}
+				if ik != c14kNat || vk != want {
+					break
+				}
+				return bind(append(pi, pv...), c14Name(sid.Name), "(g_set "+c14Name(sid.Name)+" "+ic+" "+vc+")", true, 1)
+			}
+		}
 		// m[k] = v
 		if ix, ok := x.Lhs[0].(*ast.IndexExpr); ok && x.Tok == token.ASSIGN {
 			mid, ok := ix.X.(*ast.Ident)
@@ -1258,18 +1320,21 @@ func (t *c14Tr) block(l []ast.Stmt, k string, ind string) (string, error) {
 		if len(x.Results) != 2 {
 			break
 		}
-		if t.resKind == c14kX {
+		if t.resKind == c14kX || (t.resKind == c14kXs && t.xType != "") {
 			// the value
 			var pre []c14Pre
 			val := ""
 			if c14IsIdent(x.Results[0], "nil") {
 				val = "zero"
+				if t.resKind == c14kXs {
+					val = "(@nil X)"
+				}
 			} else {
 				p0, c, kd, err := t.expr(x.Results[0])
 				if err != nil {
 					return "", err
 				}
-				if kd != c14kX {
+				if kd != t.resKind {
 					return "", t.errf("return of a value of kind %s", c14KindName[kd])
 				}
 				pre, val = p0, c
@@ -1291,7 +1356,16 @@ func (t *c14Tr) block(l []ast.Stmt, k string, ind string) (string, error) {
 					if id, ok := e.Args[0].(*ast.Ident); ok && t.vars[id.Name] == c14kErr {
 						return c14Wrap(pre, "Return (r_ret "+val+" "+c14Name(id.Name)+")"), nil // wrapped Recv error
 					}
-					if _, isLit := e.Args[0].(*ast.BasicLit); isLit && (es(e.Fun) == "errors.New" || es(e.Fun) == "fmt.Errorf") {
+				}
+				if es(e.Fun) == "errors.New" || es(e.Fun) == "fmt.Errorf" {
+					// a new error, not derived from a Recv error
+					derived := false
+					for _, a := range e.Args {
+						if id, ok := a.(*ast.Ident); ok && t.vars[id.Name] == c14kErr {
+							derived = true
+						}
+					}
+					if !derived {
 						return c14Wrap(pre, "Return (Err "+t.errCode+")"), nil
 					}
 				}
@@ -1496,6 +1570,26 @@ func (t *c14Tr) block(l []ast.Stmt, k string, ind string) (string, error) {
 		case c14kAnys:
 			list = c14Name(over)
 		default:
+			if bid, ok := cond.Y.(*ast.Ident); ok && over == "" && t.vars[bid.Name] == c14kNat {
+				// the bound is a number: fold over the indexes; indexing inside the body is checked (g_nth)
+				vs := t.assigned(x.Body.List)
+				saved := t.snapshot()
+				t.loopV = append(t.loopV, vs)
+				t.loopK = append(t.loopK, "fold")
+				t.declare(iv.Name, c14kNat)
+				body, err := t.block(x.Body.List, "Next "+c14Tuple(vs), ind+"    ")
+				if err != nil {
+					return "", err
+				}
+				t.loopV = t.loopV[:len(t.loopV)-1]
+				t.loopK = t.loopK[:len(t.loopK)-1]
+				t.restore(saved)
+				r, err := rest(1)
+				if err != nil {
+					return "", err
+				}
+				return "cbind (cfold (fun " + c14Pattern(vs) + " " + c14Name(iv.Name) + " =>\n" + ind + "    " + body + ")\n" + ind + "  (seq " + start.Value + " (" + c14Name(bid.Name) + " - " + start.Value + ")) " + c14Tuple(vs) + ") (fun " + c14Pattern(vs) + " =>\n" + ind + r + ")", nil
+			}
 			return "", t.errf("for %s: the bound %s is not the length of a translated slice", iv.Name, types.ExprString(cond.Y))
 		}
 		vs := t.assigned(x.Body.List)
@@ -1558,6 +1652,37 @@ func (t *c14Tr) block(l []ast.Stmt, k string, ind string) (string, error) {
 			return "cbind (cfold (fun " + c14Pattern(vs) + " '(" + c14Name(iv.Name) + ", " + elem + ") =>\n" + ind + "    " + body + ")\n" + ind + "  (enumerate " + c14Name(over.Name) + ") " + c14Tuple(vs) + ") (fun " + c14Pattern(vs) + " =>\n" + ind + r + ")", nil
 		}
 		if x.Tok == token.DEFINE && !c14IsIdent(x.Key, "_") && x.Value != nil {
+			if over, ok := x.X.(*ast.Ident); ok && t.vars[over.Name] == c14kXss {
+				// for i, xs := range xss: the elements with their index
+				iv, ok1 := x.Key.(*ast.Ident)
+				ev, ok2 := x.Value.(*ast.Ident)
+				if !ok1 || !ok2 {
+					break
+				}
+				vs := t.assigned(x.Body.List)
+				for _, v := range vs {
+					if v == over.Name {
+						return "", t.errf("for %s: the loop assigns the slice %s it runs over", iv.Name, over.Name)
+					}
+				}
+				saved := t.snapshot()
+				t.loopV = append(t.loopV, vs)
+				t.loopK = append(t.loopK, "fold")
+				t.declare(iv.Name, c14kNat)
+				t.declare(ev.Name, c14kXs)
+				body, err := t.block(x.Body.List, "Next "+c14Tuple(vs), ind+"    ")
+				if err != nil {
+					return "", err
+				}
+				t.loopV = t.loopV[:len(t.loopV)-1]
+				t.loopK = t.loopK[:len(t.loopK)-1]
+				t.restore(saved)
+				r, err := rest(1)
+				if err != nil {
+					return "", err
+				}
+				return "cbind (cfold (fun " + c14Pattern(vs) + " '(" + c14Name(iv.Name) + ", " + c14Name(ev.Name) + ") =>\n" + ind + "    " + body + ")\n" + ind + "  (enumerate " + c14Name(over.Name) + ") " + c14Tuple(vs) + ") (fun " + c14Pattern(vs) + " =>\n" + ind + r + ")", nil
+			}
 			// for k, v := range m  (m a map[int][]int): Go's order is arbitrary: the parameter [ord]
 			kv, ok1 := x.Key.(*ast.Ident)
 			vv, ok2 := x.Value.(*ast.Ident)
@@ -1603,6 +1728,8 @@ func (t *c14Tr) block(l []ast.Stmt, k string, ind string) (string, error) {
 			ek = c14kKey
 		case c14kNats:
 			ek = c14kNat
+		case c14kXss:
+			ek = c14kXs
 		default:
 			return "", t.errf("range over a value of kind %s", c14KindName[lk])
 		}
@@ -1746,6 +1873,31 @@ func c14StreamEntry(f *ast.File, name, xType, errCode, callee string) (string, e
 		return "", err
 	}
 	return fmt.Sprintf("Definition gen_%s (%s : list (sitem X)) : res X :=\n  crun (S := unit) (\n    %s).\n", name, c14Name(p), body), nil
+}
+
+// ---------------------------------------------------------------- concatMessageArray
+
+func c14MessageArray(g *ast.File) (string, error) {
+	name := "concatMessageArray"
+	fn := topFunc(g, name)
+	if fn == nil || fn.Body == nil {
+		return "", fmt.Errorf("func %s not found", name)
+	}
+	if fn.Type.Params == nil || len(fn.Type.Params.List) != 1 || len(fn.Type.Params.List[0].Names) != 1 || es(fn.Type.Params.List[0].Type) != "[][]*Message" {
+		return "", fmt.Errorf("%s: not a function of one [][]*Message parameter", name)
+	}
+	if fn.Type.Results == nil || len(fn.Type.Results.List) != 2 || es(fn.Type.Results.List[0].Type) != "[]*Message" || es(fn.Type.Results.List[1].Type) != "error" {
+		return "", fmt.Errorf("%s: result is not ([]*Message, error)", name)
+	}
+	p := fn.Type.Params.List[0].Names[0].Name
+	t := &c14Tr{fname: name, vars: map[string]c14Kind{}, lenOf: map[string]string{}, resKind: c14kXs, errCode: "E_LEN", xType: "*Message",
+		funcs: map[string]c14Fn{"ConcatMessages": {"concat_items", c14kXs, c14kX}}}
+	t.declare(p, c14kXss)
+	body, err := t.block(fn.Body.List, "Return Panic", "    ")
+	if err != nil {
+		return "", err
+	}
+	return fmt.Sprintf("Definition gen_%s (%s : list (list X)) : res (list X) :=\n  crun (S := unit) (\n    %s).\n", name, c14Name(p), body), nil
 }
 
 // ---------------------------------------------------------------- concatToolCalls: sort + comparator
@@ -2036,10 +2188,6 @@ func c14ExtractConcatCode(repo string) (string, string, error) {
 	if err != nil {
 		return "", "", err
 	}
-	g, err := parseGo(fset, repo, "schema", "message.go")
-	if err != nil {
-		return "", "", err
-	}
 	specs := []c14Spec{
 		{name: "toSliceValue", paramType: "[]any", paramKind: c14kAnys, resKind: c14kSlice, errCode: "E_TYPE"},
 		{name: "concatSliceValue", paramType: "reflect.Value", paramKind: c14kSlice, resKind: c14kOpt, errCode: "E_MULTI"},
@@ -2065,11 +2213,27 @@ func c14ExtractConcatCode(repo string) (string, string, error) {
 			funcs[sp.name] = c14Fn{"gen_" + sp.name, sp.paramKind, sp.resKind}
 		}
 	}
-	tc, err := c14ToolCallSort(g)
+	shape, err := c14ItemsShape(f)
 	if err != nil {
 		return "", "", err
 	}
-	shape, err := c14ItemsShape(f)
+	var b strings.Builder
+	b.WriteString("(* Gen/ConcatCode.v — GENERATED by tools/go2v (extractor \"concatcode\") from internal/concat.go\n")
+	b.WriteString("   (toSliceValue, concatSliceValue, concatMaps, concatInterfaces, translated statement by statement; ConcatItems\n")
+	b.WriteString("   as a table of its statements). Do not edit. *)\n")
+	b.WriteString("From Eino Require Import Base.Util Model.ConcatTable Model.Concat Model.ConcatMsg Model.ConcatStream Model.ConcatGenLib.\n\n")
+	b.WriteString("Definition tie_available : bool := true.\n\nSection Gen.\nContext {U : UserFn}.\n\n")
+	b.WriteString(strings.Join(defs, "\n"))
+	b.WriteString("\nEnd Gen.\n\n")
+	b.WriteString(shape)
+	_ = sort.Strings
+	return "ConcatCode.v", b.String(), nil
+}
+
+// extractor "concatstream": compose/stream_concat.go concatStreamReader, schema/message.go ConcatMessageStream
+func c14ExtractConcatStream(repo string) (string, string, error) {
+	fset := token.NewFileSet()
+	g, err := parseGo(fset, repo, "schema", "message.go")
 	if err != nil {
 		return "", "", err
 	}
@@ -2085,29 +2249,48 @@ func c14ExtractConcatCode(repo string) (string, string, error) {
 	if err != nil {
 		return "", "", err
 	}
+	arr, err := c14MessageArray(g)
+	if err != nil {
+		return "", "", err
+	}
+	var b strings.Builder
+	b.WriteString("(* Gen/ConcatStreamCode.v — GENERATED by tools/go2v (extractor \"concatstream\") from compose/stream_concat.go\n")
+	b.WriteString("   (concatStreamReader) and schema/message.go (ConcatMessageStream, concatMessageArray), translated statement by statement. Do not edit. *)\n")
+	b.WriteString("From Eino Require Import Base.Util Model.ConcatTable Model.Concat Model.ConcatMsg Model.ConcatStream Model.ConcatGenLib.\n\n")
+	b.WriteString("Definition tie_available : bool := true.\n")
+	b.WriteString("\nSection Stream.\nVariable X : Type.\nVariable zero : X.\nVariable concat_items : list X -> res X.\n\n")
+	b.WriteString(se1)
+	b.WriteString("\n")
+	b.WriteString(se2)
+	b.WriteString("\n(* nil test of a chunk (a *Message) *)\nVariable is_nil_x : X -> bool.\n\n")
+	b.WriteString(arr)
+	b.WriteString("\nEnd Stream.\n")
+	return "ConcatStreamCode.v", b.String(), nil
+}
+
+// extractor "concattoolcalls": schema/message.go concatToolCalls (the function, its comparator, its sort call)
+func c14ExtractConcatToolCalls(repo string) (string, string, error) {
+	fset := token.NewFileSet()
+	g, err := parseGo(fset, repo, "schema", "message.go")
+	if err != nil {
+		return "", "", err
+	}
+	tc, err := c14ToolCallSort(g)
+	if err != nil {
+		return "", "", err
+	}
 	tcs, err := c14ToolCalls(g)
 	if err != nil {
 		return "", "", err
 	}
 	var b strings.Builder
-	b.WriteString("(* Gen/ConcatCode.v — GENERATED by tools/go2v (extractor \"concatcode\") from internal/concat.go\n")
-	b.WriteString("   (toSliceValue, concatSliceValue, concatMaps, concatInterfaces, translated statement by statement) and\n")
-	b.WriteString("   schema/message.go (the sort call of concatToolCalls and its comparator). Do not edit. *)\n")
+	b.WriteString("(* Gen/ConcatToolCallCode.v — GENERATED by tools/go2v (extractor \"concattoolcalls\") from schema/message.go\n")
+	b.WriteString("   (concatToolCalls translated statement by statement, its comparator, its sort call). Do not edit. *)\n")
 	b.WriteString("From Eino Require Import Base.Util Model.ConcatTable Model.Concat Model.ConcatMsg Model.ConcatStream Model.ConcatGenLib.\n\n")
-	b.WriteString("Definition tie_available : bool := true.\n\nSection Gen.\nContext {U : UserFn}.\n\n")
-	b.WriteString(strings.Join(defs, "\n"))
-	b.WriteString("\nEnd Gen.\n\n")
+	b.WriteString("Definition tie_available : bool := true.\n\n")
 	b.WriteString(tc)
-	b.WriteString("\n")
-	b.WriteString(shape)
-	b.WriteString("\nSection Stream.\nVariable X : Type.\nVariable zero : X.\nVariable concat_items : list X -> res X.\n\n")
-	b.WriteString(se1)
-	b.WriteString("\n")
-	b.WriteString(se2)
-	b.WriteString("\nEnd Stream.\n")
 	b.WriteString("\nSection ToolCalls.\n(* the order in which Go visits the index map *)\nVariable ord : list (Z * list nat) -> list (Z * list nat).\n\n")
 	b.WriteString(tcs)
 	b.WriteString("\nEnd ToolCalls.\n")
-	_ = sort.Strings
-	return "ConcatCode.v", b.String(), nil
+	return "ConcatToolCallCode.v", b.String(), nil
 }
